@@ -10,6 +10,6 @@ trap 'git -C /repo checkout -- . ' EXIT
 git apply "$P" || { echo "MUTANT $N: patch does not apply"; exit 2; }
 cd /verif
 for id in "$@"; do
-  out=$(timeout 900 bin/check $id --tier quick --no-evidence ${EXTRA:-} 2>&1); rc=$?
+  out=$(timeout -s TERM -k 10 900 bin/check $id --tier quick --no-evidence ${EXTRA:-} 2>&1); rc=$?
   echo "MUTANT $N check=$id rc=$rc :: $(echo "$out" | grep -m1 '^VIOLATION' ) $(echo "$out" | grep -A1 -m1 '^VIOLATION' | tail -1 | cut -c1-160)"
 done
